@@ -337,9 +337,10 @@ func mathExactPrograms(r *rand.Rand, nrnd, perProg int) []*tprog {
 	g32 := float32Grid(r)
 	gridFile := "package main\n\n" + gu.decl("gridU") + gb.decl("gridB") + gt.decl("gridT") + gl.decl("gridL") + f32decl("gridG", g32)
 	seed := func() string { return fmt.Sprintf("%d", r.Uint64()|1) }
-	rndOpen := func(vars string) string {
-		return fmt.Sprintf("rg := &rng{%s}\n\tfor i := 0; i < %d; i++ {\n\t\t%s", seed(), nrnd, vars)
+	rndOpenN := func(vars string, n int) string {
+		return fmt.Sprintf("rg := &rng{%s}\n\tfor i := 0; i < %d; i++ {\n\t\t%s", seed(), n, vars)
 	}
+	rndOpen := func(vars string) string { return rndOpenN(vars, nrnd) }
 	var out []*tprog
 	var cur *tprog
 	cnt := 0
@@ -477,7 +478,11 @@ func obs(x float64) (uint64, int) {
 			ys = "gridT[:14]" // the reference's Mod loops once per quotient bit
 		}
 		t.block("math."+fn+"/gridU-x", "for _, x := range gridU {\n\tfor _, y := range "+ys+" {", call, "d.w64(k64(r))", `sf(x) + " " + sf(y) + " -> " + sf(r)`, 20011, 2)
-		t.block("math."+fn+"/rnd", rndOpen("x, y := rndF(rg), rndF(rg)"), call, "d.w64(k64(r))", `sf(x) + " " + sf(y) + " -> " + sf(r)`, nrnd/7+1, 1)
+		nr := nrnd
+		if (fn == "Mod" || fn == "Remainder") && nrnd > 100000 {
+			nr = nrnd / 4 // the reference's Mod loops once per quotient bit (up to 2100 iterations)
+		}
+		t.block("math."+fn+"/rnd", rndOpenN("x, y := rndF(rg), rndF(rg)", nr), call, "d.w64(k64(r))", `sf(x) + " " + sf(y) + " -> " + sf(r)`, nr/7+1, 1)
 		if fn == "Mod" || fn == "Remainder" || fn == "Nextafter" || fn == "Dim" {
 			// near arguments: y within a few ulp / small multiples of x (tiny ratios), and huge ratios
 			t.block("math."+fn+"/rnd-near", rndOpen("x := rndF(rg)\n\t\tc := rg.next()\n\t\ty := x\n\t\tswitch c % 5 {\n\t\tcase 0:\n\t\t\ty = math.Float64frombits(math.Float64bits(x) + c>>60)\n\t\tcase 1:\n\t\t\ty = x * float64(1+(c>>8)%9)\n\t\tcase 2:\n\t\t\ty = x / float64(1+(c>>8)%9)\n\t\tcase 3:\n\t\t\ty = x * 0.5\n\t\tcase 4:\n\t\t\ty = x * 0x1p-900 * float64(1+(c>>8)%1000)\n\t\t}"),
